@@ -22,7 +22,8 @@ RULE = (
     "periods + a different-frequency period, non-trivial iff the periods differ and straddle a year boundary "
     "(or are integer periods of opposite sign); span_machine: a constructor followed by a drawn sequence of "
     "span operations mirrored on an explicit list model, non-trivial iff |step|>1 or backward or a mutation "
-    "follows a reverse or an open end was resolved"
+    "follows a reverse or an open end was resolved (for half of the open spans the leading shift/+/- operations are "
+    "applied before the resolution and compared with resolve-then-shift)"
 )
 
 ASSUMPTIONS = [
@@ -358,6 +359,8 @@ def _span_case(draw):
         "open_start", "open_end", "open_both", "none_rshift", "rshift_none",
     ]))
     init = {"how": how, "a": a, "b": b, "step": draw(_STEP), "n": draw(st.integers(-8, 8)), "ctx": [ctx_s, ctx_e]}
+    if how.startswith("open") or "none" in how:
+        init["late"] = draw(st.booleans())      # shifting operations applied to the open span before it is resolved
     op = st.one_of(
         st.tuples(st.just("reverse")),
         st.tuples(st.just("reversed")),
@@ -371,6 +374,9 @@ def _span_case(draw):
                                      st.one_of(st.none(), st.integers(-12, 12)),
                                      st.one_of(st.none(), st.integers(-4, 4).filter(lambda k: k != 0))), max_size=3))
     return {"f": f, "init": init, "ops": [list(o) for o in ops], "slices": [list(p) for p in probes]}
+
+
+_OPEN_OPS = ("shift", "shift_start", "shift_end", "add", "radd", "sub", "copy")
 
 
 def _classify_span(case):
@@ -387,6 +393,13 @@ def _classify_span(case):
     if init["how"].startswith("open") or "none" in init["how"]:
         labels.append("open_resolved")
         nontrivial = True
+        npre = 0
+        for nm in names:
+            if nm not in _OPEN_OPS:
+                break
+            npre += nm != "copy"
+        if init.get("late") and npre:
+            labels.append("open_shifted_before_resolve" + ("_twice" if npre > 1 else ""))
     if "reverse" in names or "reversed" in names:
         i = min(k for k, nm in enumerate(names) if nm in ("reverse", "reversed"))
         if any(nm in ("shift", "shift_start", "shift_end", "add", "sub", "radd") for nm in names[i + 1:]):
@@ -481,6 +494,7 @@ def _check_span(case):
     a, b = pgen.mk(init["a"]), pgen.mk(init["b"])
     cs, ce = (pgen.ref_index(x) for x in init["ctx"])
     ctx = ir.dates.ResolutionContext(mk_at(cs), mk_at(ce))
+    done_ops = 0
     how = init["how"]
     step = init["step"]
     if how == "ctor":
@@ -545,6 +559,31 @@ def _check_span(case):
             model = _Model(ia, ce, 1)
         col.check(raw.needs_resolve and not bool(raw), "span:needs_resolve", lambda: f"{raw!r}")
         col.check(len(raw) is None if False else True, "span:open_len", "")
+        if init.get("late"):
+            # shifting and resolution agree: shift the open span, then resolve, against resolve-then-shift (the model)
+            for op in case["ops"]:
+                name = op[0]
+                if name not in _OPEN_OPS:
+                    break
+                if name == "copy":
+                    raw = raw.copy()
+                elif name == "shift":
+                    api("span:open:shift", raw.shift, op[1])
+                    model = _Model(model.s + op[1], model.e + op[1], model.step)
+                elif name == "shift_start":
+                    api("span:open:shift_start", raw.shift_start, op[1])
+                    model = _Model(model.s + op[1], model.e, model.step)
+                elif name == "shift_end":
+                    api("span:open:shift_end", raw.shift_end, op[1])
+                    model = _Model(model.s, model.e + op[1], model.step)
+                else:
+                    old_ = raw
+                    raw = api(f"span:open:{name}", (lambda: old_ + op[1]) if name == "add" else
+                              (lambda: op[1] + old_) if name == "radd" else (lambda: old_ - op[1]))
+                    k_ = op[1] if name != "sub" else -op[1]
+                    model = _Model(model.s + k_, model.e + k_, model.step)
+                done_ops += 1
+            how = f"{how}, {done_ops} operations before resolve {case['ops'][:done_ops]}"
         span = api("span:resolve", raw.resolve, ctx)
         col.check(not span.needs_resolve, "span:resolved_flag", lambda: f"{span!r}")
         col.check(raw.needs_resolve, "span:resolve_is_pure", "resolve() changed the open span in place")
@@ -556,6 +595,8 @@ def _check_span(case):
         return
 
     for k, op in enumerate(case["ops"]):
+        if k < done_ops:
+            continue
         name = op[0]
         where = f"after op {k} {op}"
         before = (model.s, model.e, model.step)
